@@ -1,0 +1,45 @@
+//go:build verif
+
+package mqtt
+
+import "github.com/mochi-mqtt/server/v2/packets"
+
+// This file is only compiled with the `verif` build tag. It gives the persistence checks the
+// store-loading step without listeners or the event loop, and the client subscriptions held in
+// the topic index with all their options. It changes no behaviour.
+
+// VerifReadStore runs the store-loading step of Serve (readStore) on its own.
+func (s *Server) VerifReadStore() error { return s.readStore() }
+
+// VerifIndexSub is one client subscription held in the topic index.
+type VerifIndexSub struct {
+	Client string
+	Sub    packets.Subscription
+}
+
+func verifIndexWalk(n *particle, out *[]VerifIndexSub) {
+	if n.subscriptions != nil {
+		for id, sub := range n.subscriptions.GetAll() {
+			*out = append(*out, VerifIndexSub{Client: id, Sub: sub})
+		}
+	}
+	if n.shared != nil {
+		for _, m := range n.shared.GetAll() {
+			for id, sub := range m {
+				*out = append(*out, VerifIndexSub{Client: id, Sub: sub})
+			}
+		}
+	}
+	for _, c := range n.particles.getAll() {
+		verifIndexWalk(c, out)
+	}
+}
+
+// VerifIndexSubscriptions returns every client (non-inline) subscription in the topic index.
+func (s *Server) VerifIndexSubscriptions() []VerifIndexSub {
+	out := []VerifIndexSub{}
+	s.Topics.root.Lock()
+	verifIndexWalk(s.Topics.root, &out)
+	s.Topics.root.Unlock()
+	return out
+}
